@@ -60,6 +60,12 @@ func typeUniverse() []tast {
 		tp("Enum16", "'a' = 1", "'b' = 300"), tp("DateTime", "'UTC'"), tp("DateTime", "'Europe/Berlin'"), tp("DateTime64", "3"),
 		tp("DateTime64", "6", "'UTC'"), tp("DateTime64", "9"), dec(9, 2), dec(9, 4), dec(10, 2), dec(18, 0), dec(38, 1), dec(76, 0), dec(100, 2),
 		tp("Decimal32", "2"), tp("Decimal64", "4"))
+	// the inferring enum columns of the value universe, under their exact definitions (decoded and re-encoded below)
+	eb := colgen.NewBases()
+	for _, k := range []colgen.Kind{eb.EnT8, eb.EnT16} {
+		n := k.Name()
+		base = append(base, tp(n[:strings.Index(n, "(")], strings.Split(n[strings.Index(n, "(")+1:len(n)-1], ", ")...))
+	}
 	out := append([]tast{}, base...)
 	// maps whose key type has parameters (its own base is one the relation relaxes) over plain value types, and
 	// tuples of different arity: the value type / the length must still matter
